@@ -504,6 +504,9 @@ def run(prog, rep):
 RENAME_LOCALS = ['src/psocketaddress.c']
 
 SELFTEST = [
+    dict(id="text-length-prefilter", file="src/psocketaddress.c", expect="C17.4",
+         old="\tif (P_UNLIKELY (address == NULL))\n\t\treturn NULL;\n\n#if (defined (P_OS_WIN) || defined (PLIBSYS_HAS_GETADDRINFO)) && defined (AF_INET6)",
+         new="\tif (P_UNLIKELY (address == NULL || strlen (address) >= INET6_ADDRSTRLEN))\n\t\treturn NULL;\n\n#if (defined (P_OS_WIN) || defined (PLIBSYS_HAS_GETADDRINFO)) && defined (AF_INET6)"),
     dict(id="address-text-buffer-one-short", file="src/psocketaddress.c", expect="C17.4",
          old="inet_ntop (AF_INET, &addr->addr.sin_addr, buffer, sizeof (buffer));", new="inet_ntop (AF_INET, &addr->addr.sin_addr, buffer, INET_ADDRSTRLEN - 1);"),
     dict(id="is-any-sixteen-bit-swap", file="src/psocketaddress.c", expect="C17.5",
